@@ -28,8 +28,12 @@ static J build(const mj::Value& w) {
 }
 
 static size_t g_variant = 0;   // rotates through the overloads that share one model action (plain / hinted / rvalue)
-static bool apply(std::vector<J>& slot, const mj::Value& op, std::string& err) {
+static long g_forced = -1;     // >= 0: variant of the LAST operation of the history (3 + p = hint at begin() + p)
+static bool g_skip = false;    // the forced variant does not exist for this operation / object size
+static bool apply(std::vector<J>& slot, const mj::Value& op, std::string& err, bool last = false) {
     size_t var = g_variant++ % 3;
+    long hint = -1;
+    if (last && g_forced >= 0) { if (g_forced < 3) var = (size_t)g_forced; else { var = 99; hint = g_forced - 3; } }
     const std::string& o = op[0].str();
     auto S = [&](int n) -> J& { return slot[(size_t)op[n].as_int() - 1]; };
     auto key = [&](int n) { return jc::cps_to_utf8(op[n]); };
@@ -40,6 +44,12 @@ static bool apply(std::vector<J>& slot, const mj::Value& op, std::string& err) {
         else if (o == "move") { S(1) = std::move(S(2)); }
         else if (o == "movector") { J* p = &S(1); J& src = S(2); p->~J(); new (p) J(std::move(src)); }
         else if (o == "swap") { if (op[1].as_int() % 2) S(1).swap(S(2)); else { using std::swap; swap(S(1), S(2)); } }
+        else if (hint >= 0 && (o == "insert_or_assign" || o == "try_emplace" || o == "merge" || o == "merge_or_update")) {   // hint at every position of the object
+            J& t = S(1); if ((size_t)hint > t.size()) { g_skip = true; return true; }
+            auto h = t.object_range().begin() + hint;
+            if (o == "insert_or_assign") t.insert_or_assign(h, key(2), S(3)); else if (o == "try_emplace") t.try_emplace(h, key(2), S(3));
+            else if (o == "merge") t.merge(h, S(2)); else t.merge_or_update(h, S(2)); }
+        else if (hint >= 0) { g_skip = true; return true; }
         else if (o == "insert_or_assign") { J& t = S(1); if (var == 0) t.insert_or_assign(key(2), S(3)); else if (var == 1) t.insert_or_assign(t.object_range().begin(), key(2), S(3)); else t.insert_or_assign(t.object_range().end(), key(2), S(3)); }
         else if (o == "try_emplace") { J& t = S(1); if (var == 0) t.try_emplace(key(2), S(3)); else if (var == 1) t.try_emplace(t.object_range().begin(), key(2), S(3)); else t.try_emplace(t.object_range().end(), key(2), S(3)); }
         else if (o == "insert_range") { std::vector<std::pair<std::string, J>> r; int n = 0; for (auto& k : op[2].a) r.emplace_back(jc::cps_to_utf8(k), J((int64_t)++n)); S(1).insert(r.begin(), r.end()); }
@@ -86,14 +96,20 @@ int main(int argc, char** argv) {
     hz::for_each_case(args, [&](size_t idx, const std::string& line) {
         mj::Value c = mj::parse(line); ++ncases;
         size_t n = c["s"].size();
+        // the history is replayed once with the rotating overload variants, and - when its last operation has hinted overloads - once
+        // per hint position begin() + p of the target object (the abstract result does not depend on the hint)
+        const std::string last_op = c["h"].size() ? c["h"][c["h"].size() - 1][0].str() : std::string();
+        bool hinted = last_op == "insert_or_assign" || last_op == "try_emplace" || last_op == "merge" || last_op == "merge_or_update";
+      for (long round = -1; round < (hinted ? 3 + 5 : 0); ++round) {
         std::vector<J> slot(n, J::null());
         std::string err; bool ok = true;
-        g_variant = idx;
-        for (auto& op : c["h"].a) if (!apply(slot, op, err)) { ok = false; break; }
+        g_variant = idx; g_forced = round; g_skip = false;
+        for (size_t hi = 0; hi < c["h"].size(); ++hi) if (!apply(slot, c["h"][hi], err, hi + 1 == c["h"].size())) { ok = false; break; }
+        if (g_skip) continue;
         auto fail = [&](const std::string& what, const mj::Value& got) {
-            mj::Value m = hz::rec("mismatch"); m.set("idx", (int64_t)idx); m.set("flavour", FLAVOUR); m.set("what", what); m.set("got", got); m.set("case", c); hz::emit_mismatch(m);
+            mj::Value m = hz::rec("mismatch"); m.set("idx", (int64_t)idx); m.set("flavour", FLAVOUR); m.set("what", what); m.set("variant", (int64_t)round); m.set("got", got); m.set("case", c); hz::emit_mismatch(m);
         };
-        if (!ok) { fail(err, mj::Value()); return; }
+        if (!ok) { fail(err, mj::Value()); continue; }
         for (size_t i = 0; i < n; ++i) {
             ++nchecks;
             const mj::Value& e = c["s"][i];
@@ -109,6 +125,7 @@ int main(int argc, char** argv) {
             J cp(slot[i]); if (!(cp == slot[i]) || !(slot[i] == cp)) fail("copy-not-equal", mj::Value((int64_t)i));
             std::string s1, s2; cp.dump(s1); slot[i].dump(s2); if (s1 != s2) fail("copy-prints-differently", mj::Value((int64_t)i));
         }
+      }
     });
     mj::Value s = hz::rec("stat"); s.set("cases", (int64_t)ncases); s.set("checks", (int64_t)nchecks); hz::emit(s);
     return 0;
